@@ -458,6 +458,12 @@ func init() {
 					if v, ok := work["crosstalk"].(float64); ok && v > 0 {
 						return fw.Violate("chip_cache_crosstalk", fmt.Sprintf("%d runs observed another face's mechanism or verdict", int(v)))
 					}
+					if v, ok := work["whole_circuit_not_accepted"].(float64); ok && v > 0 {
+						return fw.Violate("concurrent_whole_circuit_runs_disagree", fmt.Sprintf("%d of the concurrently defined verifier circuits did not accept a valid proof", int(v)))
+					}
+					if v, ok := work["whole_circuit_runs"].(float64); ok {
+						o.Add("concurrent_whole_circuit_runs_under_race_detector", int(v))
+					}
 					if v, ok := work["chip_runs"].(float64); ok {
 						o.Add("concurrent_chip_runs_under_race_detector", int(v))
 						o.Events += int(v)
